@@ -51,7 +51,8 @@ type c26Mirror struct {
 	wst, wt          []int // 0 idle 2 running 3 acked
 	shouldShutdown   bool
 	ack, stopWorkers bool
-	stop, acks       int // 0 notCalled 1 flagged 2 queueClosed 3 collecting 4 returned
+	stop, acks       int  // 0 notCalled 1 flagged 2 queueClosed 3 collecting 4 returned
+	pending          bool // a NewJob call is blocked on the full queue
 }
 
 func c26NewMirror(w, mj int) *c26Mirror {
@@ -70,6 +71,11 @@ func (m *c26Mirror) idle() int {
 func (m *c26Mirror) settle() {
 	for {
 		switch {
+		case m.pending && !m.shouldShutdown && len(m.queue) < m.maxJobs:
+			// the blocked `w.queue <- j` of NewJob goes through
+			m.jobs = append(m.jobs, &c26MJob{})
+			m.queue = append(m.queue, len(m.jobs)-1)
+			m.pending = false
 		case m.stop == 1:
 			m.stop, m.queueClosed = 2, true
 		case m.stop == 2 && m.ack:
@@ -151,7 +157,7 @@ func (m *c26Mirror) obs() string {
 	if m.stop == 4 {
 		st = 1
 	}
-	return fmt.Sprintf("run=%s avail=%s stop=%d", c26Set(m.running()), c26Set(m.avail()), st)
+	return fmt.Sprintf("run=%s avail=%s stop=%d jobs=%d", c26Set(m.running()), c26Set(m.avail()), st, len(m.jobs))
 }
 
 func c26Set(l []int) string {
@@ -180,11 +186,17 @@ type c26Case struct {
 	results  []string
 	stopRet  atomic.Bool
 	stopCall bool
-	refused  int // NewJob calls answered with ErrShutdown
+	refused  int      // NewJob calls answered with ErrShutdown
+	pend     *c26Pend // result of the NewJob call that was blocked on the full queue
 	hung     bool
 }
 
 var c26Timeout = 10 * time.Second
+
+type c26Pend struct {
+	jb  Job
+	err error
+}
 
 // c26WGCount reads the counter of a sync.WaitGroup (go1.2x layout: noCopy, state
 // atomic.Uint64 with the counter in the high 32 bits): a worker's last action for a task is
@@ -208,6 +220,17 @@ var c26WGOK = func() bool {
 
 func (c *c26Case) observe() string {
 	c.mu.Lock()
+	if c.pend != nil {
+		// the NewJob call that was blocked on the full queue has returned
+		if c.pend.err != nil {
+			c.r.Violation("newjob-error", "NewJob (blocked on the full queue) returned %v before Stop", c.pend.err)
+		} else {
+			c.jobs = append(c.jobs, c.pend.jb.(*ParallelJob))
+			c.waited = append(c.waited, false)
+			c.results = append(c.results, "")
+		}
+		c.pend = nil
+	}
 	var run []int
 	for t := range c.running {
 		run = append(run, t)
@@ -224,7 +247,7 @@ func (c *c26Case) observe() string {
 	if c.stopRet.Load() {
 		st = 1
 	}
-	return fmt.Sprintf("run=%s avail=%s stop=%d", c26Set(run), c26Set(av), st)
+	return fmt.Sprintf("run=%s avail=%s stop=%d jobs=%d", c26Set(run), c26Set(av), st, len(c.jobs))
 }
 
 func (c *c26Case) quiesce() string {
@@ -425,22 +448,44 @@ func (c *c26Case) finish() {
 	if c == nil || c.hung {
 		return
 	}
-	for j, jb := range c.jobs {
-		if !c.m.jobs[j].closed {
-			c.m.jobs[j].closed = true
-			jj := j
-			jb.Done(func() { c.mu.Lock(); c.log = append(c.log, c26Ev{2, jj}); c.mu.Unlock() })
+	for round := 0; round < 2; round++ {
+		for j, jb := range c.jobs {
+			if !c.m.jobs[j].closed {
+				c.m.jobs[j].closed = true
+				jj := j
+				jb.Done(func() { c.mu.Lock(); c.log = append(c.log, c26Ev{2, jj}); c.mu.Unlock() })
+			}
 		}
-	}
-	c.mu.Lock()
-	for _, g := range c.gates {
-		select {
-		case <-g:
-		default:
-			close(g)
+		c.mu.Lock()
+		for _, g := range c.gates {
+			select {
+			case <-g:
+			default:
+				close(g)
+			}
 		}
+		c.mu.Unlock()
+		if !c.m.pending {
+			break
+		}
+		// a NewJob is still blocked on the full queue: with every job Done and every task released
+		// the scheduler drains the queue and the call must return (before Stop may be called)
+		deadline := time.Now().Add(c26Timeout)
+		for {
+			c.observe()
+			if len(c.jobs) == len(c.m.jobs)+1 {
+				break
+			}
+			if time.Now().After(deadline) {
+				c.r.Violation("hang", "NewJob blocked on the full queue did not return within %v although every job was Done and every task released", c26Timeout)
+				c.hung = true
+				return
+			}
+			time.Sleep(50 * time.Microsecond)
+		}
+		c.m.jobs = append(c.m.jobs, &c26MJob{})
+		c.m.pending = false
 	}
-	c.mu.Unlock()
 	if !c.stopCall {
 		c.stopCall = true
 		go func() { c.p.Stop(); c.stopRet.Store(true) }()
@@ -575,6 +620,11 @@ func c26Generate(r *verifh.Run) []string {
 		// stop with a job in progress and one queued
 		"pool 2 2", "job", "go 0 0", "job", "go 1 0", "done 1", "stop", "job", "done 0", "rel 0", "wait 0", "wait 1",
 		"serial 0 0 0", "serial 0 1 0 1", "serial", "serial 1",
+		// several jobs, one after the other, on the same SerialWorkers, failures in more than one
+		"serial 0 1 0 / 0 0 / 1 0 0 / 0 1 1 0", "serial 1 / 1 0 / 0 0 1",
+		// NewJob on a full job queue blocks until the scheduler takes a job; the pool keeps working
+		"pool 2 1", "job", "go 0 0", "job", "job", "go 1 0", "job", "done 0", "rel 0", "wait 0", "go 2 0", "done 1", "done 2", "rel 0", "rel 0", "wait 1", "wait 2",
+		"pool 1 1", "job", "go 0 1", "go 0 0", "job", "job", "done 0", "done 1", "rel 0", "wait 0", "wait 1", "done 2", "wait 2", "stop",
 	}
 	ncases := r.N(1200, 30000)
 	for c := 0; c < ncases; c++ {
@@ -583,6 +633,9 @@ func c26Generate(r *verifh.Run) []string {
 			w = 1 + g.Intn(16)
 		}
 		mj := 1 + g.Intn(4)
+		if g.Chance(45) {
+			mj = 1 // small job queues: NewJob finds the queue full
+		}
 		lines = append(lines, fmt.Sprintf("pool %d %d", w, mj))
 		nj := 0
 		failing := g.Chance(50)
@@ -597,7 +650,7 @@ func c26Generate(r *verifh.Run) []string {
 				}
 			}
 			switch {
-			case x < 12:
+			case x < 16:
 				lines = append(lines, "job")
 				nj++
 			case x < 45:
@@ -629,11 +682,16 @@ func c26Generate(r *verifh.Run) []string {
 		}
 		if c%10 == 0 {
 			l := "serial"
-			for i, n := 0, g.Intn(8); i < n; i++ {
-				if g.Chance(25) {
-					l += " 1"
-				} else {
-					l += " 0"
+			for k, nj := 0, 1+g.Intn(4); k < nj; k++ {
+				if k > 0 {
+					l += " /"
+				}
+				for i, n := 0, g.Intn(6); i < n; i++ {
+					if g.Chance(25) {
+						l += " 1"
+					} else {
+						l += " 0"
+					}
 				}
 			}
 			lines = append(lines, l)
@@ -703,7 +761,7 @@ func TestVerifC26(t *testing.T) {
 		case f[0] == "serial":
 			ok := true
 			for _, b := range f[1:] {
-				if b != "0" && b != "1" {
+				if b != "0" && b != "1" && b != "/" {
 					ok = false
 				}
 			}
@@ -751,8 +809,23 @@ func TestVerifC26(t *testing.T) {
 				r.Emit(l, "shutdown "+c.quiesce())
 				continue
 			}
+			if c.m.pending {
+				r.Emit(l, "busy")
+				continue
+			}
 			if len(c.m.queue) >= c.m.maxJobs {
-				r.Emit(l, "full")
+				// the queue is full: NewJob blocks on `w.queue <- j` (without holding anything) until
+				// the scheduler takes a job; everything else must keep working meanwhile
+				c.m.pending = true
+				cc := c
+				go func() {
+					jb, err := cc.p.NewJob(32)
+					cc.mu.Lock()
+					cc.pend = &c26Pend{jb, err}
+					cc.mu.Unlock()
+				}()
+				r.Emit(l, "pending "+c.quiesce())
+				r.Count("newjob-on-full-queue")
 				continue
 			}
 			jb, err := c.p.NewJob(32)
@@ -834,6 +907,12 @@ func TestVerifC26(t *testing.T) {
 				r.Emit(l, "again")
 				continue
 			}
+			if c.m.pending {
+				// Stop while a NewJob is blocked in its send is outside the modelled protocol
+				// (close of the queue under a blocked sender panics in the real code)
+				r.Emit(l, "busy")
+				continue
+			}
 			c.stopCall = true
 			cc := c
 			// the scheduler reads shouldShutdown a moment after it received a job; that window
@@ -891,53 +970,76 @@ func TestVerifC26(t *testing.T) {
 	}
 }
 
-func c26Serial(r *verifh.Run, bits []string) string {
+// c26Serial runs a sequence of jobs (groups of fail bits separated by "/") one after the other
+// on ONE SerialWorkers: each job is created after the previous one was waited on.
+func c26Serial(r *verifh.Run, words []string) string {
+	var groups [][]string
+	cur := []string{}
+	for _, b := range words {
+		if b == "/" {
+			groups = append(groups, cur)
+			cur = []string{}
+		} else {
+			cur = append(cur, b)
+		}
+	}
+	groups = append(groups, cur)
 	w := NewSerial()
-	j, err := w.NewJob(len(bits))
-	if err != nil {
-		r.Violation("serial-newjob", "SerialWorkers.NewJob: %v", err)
-		return "error"
-	}
-	var ran []int
-	count := map[int]int{}
-	for i, b := range bits {
-		i, fail := i, b == "1"
-		j.Go(func() error {
-			ran = append(ran, i)
-			count[i]++
-			if fail {
-				return c26Err{i}
+	var outs []string
+	for gi, bits := range groups {
+		j, err := w.NewJob(len(bits))
+		if err != nil {
+			r.Violation("serial-newjob", "SerialWorkers.NewJob: %v", err)
+			return "error"
+		}
+		var ran []int
+		count := map[int]int{}
+		for i, b := range bits {
+			i, fail := i, b == "1"
+			j.Go(func() error {
+				ran = append(ran, i)
+				count[i]++
+				if fail {
+					return c26Err{i}
+				}
+				return nil
+			})
+		}
+		cb := false
+		j.Done(func() { cb = true })
+		res := c26Res(j.Wait())
+		// oracle (per job)
+		failedRan, anyFail, firstFail := false, false, -1
+		for i, b := range bits {
+			if b == "1" {
+				anyFail = true
+				if firstFail < 0 {
+					firstFail = i
+				}
+				if count[i] > 0 {
+					failedRan = true
+				}
 			}
-			return nil
-		})
+			if count[i] > 1 {
+				r.Violation("task-twice", "serial job %d: task %d ran twice", gi, i)
+			}
+		}
+		if !anyFail && len(ran) != len(bits) {
+			r.Violation("task-not-run", "serial job %d: not all tasks ran", gi)
+		}
+		if (res != "ok") != failedRan {
+			r.Violation("error-lost", "serial job %d of a sequence on one SerialWorkers: result %s, executed failing task: %v", gi, res, failedRan)
+		}
+		if firstFail >= 0 && len(ran) > firstFail+1 {
+			r.Violation("task-after-failure", "serial job %d: %d task(s) ran after task %d had failed", gi, len(ran)-firstFail-1, firstFail)
+		}
+		if !cb {
+			r.Violation("callback-early", "serial: Done callback not called")
+		}
+		outs = append(outs, fmt.Sprintf("res=%s ran=%s", res, c26Set(ran)))
 	}
-	cb := false
-	j.Done(func() { cb = true })
-	res := c26Res(j.Wait())
 	w.Stop()
-	// oracle
-	failedRan, anyFail := false, false
-	for i, b := range bits {
-		if b == "1" {
-			anyFail = true
-			if count[i] > 0 {
-				failedRan = true
-			}
-		}
-		if count[i] > 1 {
-			r.Violation("task-twice", "serial: task %d ran twice", i)
-		}
-	}
-	if !anyFail && len(ran) != len(bits) {
-		r.Violation("task-not-run", "serial: not all tasks ran")
-	}
-	if (res != "ok") != failedRan {
-		r.Violation("error-lost", "serial: result %s, executed failing task: %v", res, failedRan)
-	}
-	if !cb {
-		r.Violation("callback-early", "serial: Done callback not called")
-	}
-	return fmt.Sprintf("res=%s ran=%s", res, c26Set(ran))
+	return strings.Join(outs, " ; ")
 }
 
 // c26Stress: no gates, real timing. Each round submits a job whose tasks all fail at the
